@@ -349,20 +349,39 @@ func master() int {
 		keys = keys[:maxKeys]
 	}
 	os.MkdirAll(filepath.Join(outDir(), "replays", id), 0o755)
-	for _, k := range keys {
+	// re-execute every failing class 5x before believing it (a few classes at a time: replays are independent processes;
+	// a class stops at its first replay that does not fail)
+	failsOf := make([]int, len(keys))
+	{
+		var rwg sync.WaitGroup
+		sem := make(chan struct{}, envInt("VERIF_REPLAY_JOBS", 4))
+		for i, k := range keys {
+			f := a.failures[k]
+			rp := filepath.Join(outDir(), "replays", id, core.KeySafe(k)+".json")
+			rb, _ := json.MarshalIndent(map[string]any{"property": id, "key": f.Key, "what": f.What, "scenario": f.Scenario, "choices": f.Choices, "bound": f.Bound, "tier": tier}, "", " ")
+			os.WriteFile(rp, rb, 0o644)
+			rwg.Add(1)
+			go func(i int, rp string) {
+				defer rwg.Done()
+				sem <- struct{}{}
+				defer func() { <-sem }()
+				for n := 0; n < 5; n++ {
+					c := workerCmd(p, "replay", id, rp)
+					out, _ := c.CombinedOutput()
+					if c.ProcessState != nil && c.ProcessState.ExitCode() == 1 && strings.Contains(string(out), "ORACLE FAILED") {
+						failsOf[i]++
+					} else {
+						break
+					}
+				}
+			}(i, rp)
+		}
+		rwg.Wait()
+	}
+	for i, k := range keys {
 		f := a.failures[k]
 		rp := filepath.Join(outDir(), "replays", id, core.KeySafe(k)+".json")
-		rb, _ := json.MarshalIndent(map[string]any{"property": id, "key": f.Key, "what": f.What, "scenario": f.Scenario, "choices": f.Choices, "bound": f.Bound, "tier": tier}, "", " ")
-		os.WriteFile(rp, rb, 0o644)
-		// re-execute 5x before believing it
-		fails := 0
-		for n := 0; n < 5; n++ {
-			c := workerCmd(p, "replay", id, rp)
-			out, _ := c.CombinedOutput()
-			if c.ProcessState != nil && c.ProcessState.ExitCode() == 1 && strings.Contains(string(out), "ORACLE FAILED") {
-				fails++
-			}
-		}
+		fails := failsOf[i]
 		if fails != 5 {
 			// the same scenario and schedule did not fail again: an artefact of something the harness does not own
 			// (real time under machine load), not a verdict about the code. Recorded, never reported as a violation.
